@@ -112,6 +112,21 @@ def hoist_obligation():
     return (name, None, "`%s` is not bound to ast.get_docstring(parsed_ast) and the replay found no failing input" % t)
 
 
+def rule_replay(name):
+    """Targeted run of the real code for the clause a shape rule carries -> failing input dict or None"""
+    if name.startswith("main/") or "output_filename" in name or name.startswith("gen_file/"):
+        r = guard_case(0)  # the CLI onto an existing file, three spellings of the path
+        bad = [w for k, w in r if k != "raises"]
+        return {"case": ["cli", "gen", 1, None, False], "what": bad[0]} if bad else None
+    if name.startswith("get_functions_and_classes/"):
+        # up to 8 entries: the last three have a private, a lower-case and a one-letter name
+        for case in (("class", "{name}Gen", 2, None, False), ("class", "Cfg{name}", 8, None, False), ("class", "{name}", 8, None, False), ("argparse", "{name}Gen", 2, None, False)):
+            bad = [w for k, w in gen_case(case) if k != "raises"]
+            if bad:
+                return {"case": list(case), "what": bad[0]}
+    return None
+
+
 HOIST_CASE = ("class", "{name}Gen", 1, "print('generated')\n", "future")
 
 
@@ -124,7 +139,7 @@ def hoist_replay():
 # ---------------------------------------------------------------------------------------------------- bounded
 
 def class_src(i):
-    n = ("Alpha", "Beta", "Gamma", "Delta", "Eps")[i]
+    n = ("Alpha", "Beta", "Gamma", "Delta", "Eps", "_Hidden", "lower_case", "X")[i]
     return 'class %s(object):\n    """\n    %s conf\n\n    :cvar a%d: the a\n    :cvar b: the b\n    """\n\n    a%d: int = %d\n    b: Optional[str] = None\n' % (n, n, i, i, i + 1), n
 
 
@@ -230,7 +245,7 @@ def guard_case(phase):
 
 def bounded(tier):
     emits = ["class", "argparse", "json_schema", "sqlalchemy", "sqlalchemy_table"]
-    cases = list(itertools.product(emits, ("{name}Gen", "Cfg{name}"), (1, 2, 4) if tier == "quick" else (1, 2, 3, 4, 5), (None, "import os\n", '"""Module doc"""\n', "print('generated')\n"), (False, True, "future")))
+    cases = list(itertools.product(emits, ("{name}Gen", "Cfg{name}"), (1, 2, 4) if tier == "quick" else (1, 2, 3, 4, 5, 8), (None, "import os\n", '"""Module doc"""\n', "print('generated')\n"), (False, True, "future")))
     cases = [c for c in cases if not (c[3] and not c[4])]  # --prepend only matters together with --imports-from-file
     res = common.pmap(gen_case, cases)
     fails, raised = {}, 0
@@ -250,7 +265,17 @@ def main(tier, write_baseline=False):
     run = Run("C19", tier, "other", checker_cmd=common.checker_cmd("C19", tier))
     run.trusted_base.update(["rule engine of checks/C19.py over the real ast (guard dominance, parameter frame, generator shape)"])
     refuted = []
+    rule_inputs = {}
     for name, ok, detail in rule_obligations():
+        if ok is False and not name.startswith("gen_module/"):
+            # a shape rule no longer matches.  That alone is not a violation (the code may have been rewritten in an
+            # equivalent way): it is reported only when the clause the rule carries fails on the real code for a targeted input
+            fi = rule_replay(name)
+            if fi is None:
+                ok, detail = None, "rule no longer matches (%s) and the targeted replay on the real code found no failing input: undecided, not a violation" % detail
+            else:
+                rule_inputs["C19/" + name] = fi
+                detail = "%s; replayed on the real code: %s" % (detail, fi["what"][:200])
         st = UNDECIDED if ok is None else (PROVED if ok else REFUTED)
         run.add("C19/" + name, st, "rule-engine", detail=detail)
         if ok is False:
@@ -273,6 +298,8 @@ def main(tier, write_baseline=False):
         cand = next((v for k, v in fails.items() if k[0] == "overwrote"), None)
         if "gen_module/" in name:
             cand = (HOIST_CASE, detail)
+        if name in rule_inputs:
+            cand = (rule_inputs[name]["case"], rule_inputs[name]["what"])
         run.violation(name, detail, failing_input=({"case": list(cand[0]), "what": cand[1]} if cand else None), solver_output={"rule": detail})
     if not refuted:
         for (kind, emit), (case, what) in fails.items():
